@@ -69,7 +69,9 @@ def generate(prop, seed, tier):
     return {'prop': 'C20', 'engine': 'sync', 'seed': seed, 'n': n, 'm': m, 'tdtype': r.choice(['uint8', 'int16', 'float32']),
             'ptw': r.randint(1, 16), 'label': r.random() < 0.5, 'gain': r.random() < 0.7, 'pattern': ''.join(pat), 'shape': shape,
             'outlen': r.choice([m, m, max(1, m - 1), m + 3, 1]), 'out_kind': r.choice(['str', 'path']), 'scale': r.choice([1, 1, 2]),
-            'table_seed': rng.H(seed, 'table')}
+            'table_seed': rng.H(seed, 'table'),
+            # history before run(): the documented workflow tries the function with check() first (random picks -> numpy global RNG is seeded)
+            'check_first': rng.stream(seed, 'history').choice([0, 0, 0, 1, 3, 5])}
 
 
 def make_input(scn):
@@ -124,6 +126,17 @@ def execute(scn):
     try:
         sy = scared.Synchronizer(ths, out, f, scale=scn['scale'])
         run_exc = None
+        if scn.get('check_first'):
+            import contextlib
+            import io
+            np.random.seed(scn['seed'] % (2 ** 32))
+            try:
+                with contextlib.redirect_stdout(io.StringIO()):
+                    sy.check(nb_traces=scn['check_first'])
+                probes['check_before_run'] = 1
+            except Exception:
+                probes['check_raised'] = 1
+            del calls[:]
         try:
             with warnings.catch_warnings():
                 warnings.simplefilter('ignore')
@@ -215,7 +228,7 @@ def candidates(scn):
             c = copy.deepcopy(scn)
             c['pattern'] = scn['pattern'][:i] + 'r' + scn['pattern'][i + 1:]
             yield c
-    for key, val in (('label', False), ('gain', False), ('ptw', 1), ('tdtype', 'uint8'), ('out_kind', 'str'), ('scale', 1), ('outlen', scn['m']), ('m', 2)):
+    for key, val in (('label', False), ('gain', False), ('ptw', 1), ('tdtype', 'uint8'), ('out_kind', 'str'), ('scale', 1), ('outlen', scn['m']), ('m', 2), ('check_first', 0)):
         if scn.get(key) != val:
             c = copy.deepcopy(scn)
             c[key] = val
@@ -225,4 +238,4 @@ def candidates(scn):
 
 
 def summary(scn):
-    return {k: scn[k] for k in ('n', 'm', 'tdtype', 'pattern', 'shape', 'outlen', 'out_kind', 'ptw', 'label', 'gain')}
+    return {k: scn.get(k) for k in ('n', 'm', 'tdtype', 'pattern', 'shape', 'outlen', 'out_kind', 'ptw', 'label', 'gain', 'check_first')}
